@@ -137,6 +137,17 @@ def stress_case(item):
             r, _ = pj.run(['redo', '-j%d' % j, 'top'])
             rs = [r]
             expect_files = ['top', 'x', 'y'] + leaves
+        elif kind == 'longwait':
+            # a process that gave its slot away while waiting for a locked target finds every slot taken by long jobs
+            # and has to wait for a token for more than a minute (bounded restatement of "any script duration")
+            _, hold, log = item
+            files = {'top.do': scen.node_do(['a', 'b', 'h1', 'h2']), 'x.do': scen.leaf_do('sleep 2'), 'a.do': scen.node_do(['x']),
+                     'b.do': scen.TRACE_HDR + 'echo "S $1 $$ $PPID" >&9\nsleep 0.5\nredo-ifchange x\necho b > $3\necho "E $1 $$ 0" >&9\n',
+                     'h1.do': scen.leaf_do('sleep %d' % hold), 'h2.do': scen.leaf_do('sleep %d' % hold)}
+            pj = scen.Project(files, 'c09long')
+            r, _ = pj.run(['redo', '-j2', 'top'], extra=({} if log else {'REDO_LOG': '0'}), timeout=hold + 120, stuck_after=hold + 60)
+            rs = [r]
+            expect_files = ['top', 'a', 'b', 'x', 'h1', 'h2']
         elif kind == 'cheat':
             # the followed job waits for a locked target, finds every slot taken afterwards and borrows one; with `redo`
             # (forced) it then starts a job on the borrowed slot
@@ -247,6 +258,8 @@ def stress_items(tier, rnd):
                 for f in ('cheat', 'cheatf'):
                     for rep in range(1 if quick else 5):
                         items.append(('cheat', '%s%d' % (f, nsh), nsh + extra, own, rep))
+    if not quick:
+        items += [('longwait', 75, False), ('longwait', 75, True)]
     # the tuples carry a repetition index only to make them distinct
     return [it[:6] if it[0] == 'fan' else (it[:3] if it[0] == 'cross' else it) for it in items]
 
@@ -262,7 +275,7 @@ RULE = ('layer 1 (systematic): a select()-gate in one redo process lets the harn
         'step to a depth bound, each path replayed from scratch (k<=3 children, 1-3 job slots, plain and nested one level, with and '
         'without log capture, with a failing child). layer 2 (stress): fans of 16-120 instant/jittered leaves at -j2..16 with own '
         'and inherited jobserver, the same target spelled several times on one command line, a second invocation arriving while a '
-        'target is being built, crossed dependency orders, 2-8 contending invocations, the followed job borrowing a slot after a lock hand-over (and starting a job on it), random parallel histories. Oracle: no panic / '
+        'target is being built, crossed dependency orders, 2-8 contending invocations, the followed job borrowing a slot after a lock hand-over (and starting a job on it), a process waiting more than a minute for a job token while two 75 s jobs hold every slot (thorough), random parallel histories. Oracle: no panic / '
         'abort text or status in any redo process, no confirmed stuck state, exit 0 whenever all scripts succeed, tokens conserved '
         'on gate paths. Non-trivial: gate path with >=2 wake-ups, every stress build. Distinct: hash of scenario parameters and the '
         'delivered event sets.')
